@@ -73,7 +73,7 @@ class MergeConsecutiveOp(BaseOp):
         self.event_code = parameters["event_code"]
         self.set_durations = parameters["set_durations"]
         self.ignore_missing = parameters["ignore_missing"]
-        self.match_columns = parameters.get("match_columns", None)
+        self.match_columns = parameters.get("match_columns", None) or []
 
     def do_op(self, dispatcher, df, name, sidecar=None):
         """ Merge consecutive rows with the same column value.
